@@ -61,4 +61,6 @@ package metadata
 //@   ensures err == nil ==> ("equivalentId" in md) == ("equivalentId" in info) && ("equivalentId" in info ==> md["equivalentId"] == info["equivalentId"])
 //@   ensures err == nil ==> ("versionId" in md) == (rm.VersionID != "") && (rm.VersionID != "" ==> md["versionId"] == boxed(rm.VersionID))
 //@   ensures err == nil ==> ("created" in md) == unbox(info["published"], "bool") && ("updated" in md) == (rm.VersionID != "" && rm.UpdatedTime > 0)
+//@   ensures err == nil && unbox(info["published"], "bool") ==> md["created"] == boxed(fmtTime(utcOf(unixTime(int64(rm.CreatedTime), 0)), "2006-01-02T15:04:05Z07:00"))
+//@   ensures err == nil && rm.VersionID != "" && rm.UpdatedTime > 0 ==> md["updated"] == boxed(fmtTime(utcOf(unixTime(int64(rm.UpdatedTime), 0)), "2006-01-02T15:04:05Z07:00"))
 //@   modifies elems(rm.PublishedOperations), elems(rm.UnpublishedOperations)
